@@ -143,6 +143,38 @@ Qed.
 Lemma py_mod_modulo : forall a m, m <> 0 -> py_mod a m = Z.modulo a m.
 Proof. intros a m H. unfold py_mod. rewrite (Z.mod_eq a m H). reflexivity. Qed.
 
+(* ------------------------------------------------------------------ physical qubits *)
+Lemma count_unused_find : forall u fuel a,
+  count_unused fuel (Z.of_nat a) u =
+  match List.find (fun k => negb (set_mem k u)) (map Z.of_nat (seq a fuel)) with
+  | Some p => Ok p
+  | None => Raise FBook
+  end.
+Proof.
+  intros u fuel. induction fuel as [|f IH]; intros a; [reflexivity|].
+  cbn [count_unused seq map List.find].
+  destruct (set_mem (Z.of_nat a) u); cbn [negb]; [|reflexivity].
+  replace (Z.of_nat a + 1) with (Z.of_nat (S a)) by lia. apply IH.
+Qed.
+
+Lemma get_unused_spec : forall u,
+  get_unused_physical_qubit u =
+  match least_unused u with Some p => Ok (p, set_add p u) | None => Raise FBook end.
+Proof.
+  intro u. unfold get_unused_physical_qubit, least_unused.
+  change 0 with (Z.of_nat 0). rewrite (count_unused_find u (S (List.length u)) 0).
+  destruct (List.find _ _); reflexivity.
+Qed.
+
+Lemma set_add_idem : forall p u, set_add p (set_add p u) = set_add p u.
+Proof.
+  intros p u. unfold set_add at 2. destruct (set_mem p u) eqn:E.
+  - unfold set_add. rewrite E. reflexivity.
+  - unfold set_add. rewrite E.
+    replace (set_mem p (u ++ [p])) with true; [reflexivity|].
+    unfold set_mem. rewrite existsb_app. cbn. rewrite Z.eqb_refl, orb_true_r. reflexivity.
+Qed.
+
 (* ------------------------------------------------------------------ one instruction *)
 Ltac regs :=
   repeat match goal with
@@ -246,7 +278,9 @@ Proof.
     destruct (Zlen (um st) <=? q) eqn:E1; fin.
     rewrite py_getitem_nonneg by lia. rewrite E1.
     destruct (nth_error_in_range _ (um st) q) as [c Hc]; try lia. rewrite Hc. cbn [bind].
-    destruct c; fin.
+    destruct c as [p0|]; fin.
+    rewrite get_unused_spec. destruct (least_unused (used st)) as [p|]; fin.
+    rewrite set_add_idem.
     rewrite py_setitem_nonneg by lia.
     destruct (q <? Zlen (um st)) eqn:E2; fin.
   - (* qfree *) unfold instr_qfree. rw. destruct (rd st r) as [q|]; fin.
@@ -255,9 +289,10 @@ Proof.
     rewrite py_getitem_nonneg by lia.
     destruct (Zlen (um st) <=? q) eqn:E1; fin.
     destruct (nth_error_in_range _ (um st) q) as [c Hc]; try lia. rewrite Hc. cbn [bind].
-    destruct c; fin.
+    destruct c as [p0|]; fin.
     rewrite py_setitem_nonneg by lia.
     destruct (q <? Zlen (um st)) eqn:E2; fin.
+    destruct (set_mem p0 (used st)); fin.
   - (* wait_all *) unfold instr_wait_all, expand_slice, arrays_getslice, arrays_get_array. rw.
     destruct (oval st so) as [s|]; fin.
     destruct (oval st eo) as [e|]; fin.
@@ -605,10 +640,10 @@ Inductive listed_fault : instr -> state -> fkind -> Prop :=
 | LF_modulus : forall st o d ra rb rm m,
     rd st rm = Some m -> m < 1 -> listed_fault (IClassical (COpm o d ra rb rm)) st FModulus
 | LF_double_alloc : forall st r q,
-    rd st r = Some q -> 0 <= q -> nth_error (um st) (Z.to_nat q) = Some true ->
+    rd st r = Some q -> 0 <= q -> (exists p, nth_error (um st) (Z.to_nat q) = Some (Some p)) ->
     listed_fault (IQalloc r) st FAlloc
 | LF_free_unallocated : forall st r q,
-    rd st r = Some q -> 0 <= q -> nth_error (um st) (Z.to_nat q) = Some false ->
+    rd st r = Some q -> 0 <= q -> nth_error (um st) (Z.to_nat q) = Some None ->
     listed_fault (IQfree r) st FFree
 | LF_load_past_end : forall st r a ix n l,
     oval st ix = Some n -> find Z.eqb a (arrs st) = Some l -> Zlen l <= n ->
@@ -633,7 +668,7 @@ Theorem listed_fault_in_domain : forall i st k pc,
 Proof.
   intros i st k pc Hok H. unfold step. rewrite Hok. cbn [negb].
   destruct H as [st r a ix Hr|st r a ix n l Hv Hn Hf He|st o d ra rb rm m Hm Hlt
-                |st r q Hr Hq Hu|st r q Hr Hq Hu|st r a ix n l Hv Hf Hl
+                |st r q Hr Hq [p Hu]|st r q Hr Hq Hu|st r a ix n l Hv Hf Hl
                 |st r v a ix n l Hr Hv Hf Hl|st a ix n l Hv Hf Hl].
   - rewrite Hr. reflexivity.
   - rewrite Hv. replace (n <? 0) with false by lia. rewrite Hf.
@@ -767,4 +802,52 @@ Proof.
   - intro Hc. rewrite Hc in H. discriminate.
   - rewrite E. reflexivity.
   - rewrite E. destruct (snd (Sem.run_from prog st pc N)); try reflexivity; discriminate.
+Qed.
+
+(* ------------------------------------------------------------------ physical-qubit bookkeeping *)
+Lemma least_unused_fresh : forall u p, least_unused u = Some p -> set_mem p u = false /\ 0 <= p.
+Proof.
+  intros u p H. unfold least_unused in H. apply find_some in H. destruct H as [Hin Hp].
+  split; [destruct (set_mem p u); [discriminate|reflexivity]|].
+  apply in_map_iff in Hin. destruct Hin as [k [Hk _]]. lia.
+Qed.
+
+(* a successful qalloc maps the LEAST physical qubit not in use and marks exactly it
+   as in use; a successful qfree unmaps the qubit and releases exactly its physical
+   id.  (A faulting qalloc/qfree changes nothing: fault_stops / fault_names_line
+   return the whole state, in-use set included.) *)
+Theorem qalloc_bookkeeping : forall st pc r q p,
+  reg_ok r = true -> rd st r = Some q -> 0 <= q ->
+  nth_error (um st) (Z.to_nat q) = Some None -> least_unused (used st) = Some p ->
+  set_mem p (used st) = false /\
+  execute_command (IQalloc r) st pc =
+  Ok (with_um st (sset (Z.to_nat q) (Some p) (um st)) (set_add p (used st)), pc + 1).
+Proof.
+  intros st pc r q p Hok Hr Hq Hu El.
+  split; [apply (least_unused_fresh _ _ El)|].
+  assert (Hs : step (IQalloc r) st pc =
+               Next (with_um st (sset (Z.to_nat q) (Some p) (um st)) (set_add p (used st))) (pc + 1)).
+  { unfold step. cbn [instr_regs_ok]. rewrite Hok. cbn [negb]. rewrite Hr.
+    replace (q <? 0) with false by lia.
+    pose proof (nth_some_lt _ _ _ _ Hq Hu). replace (Zlen (um st) <=? q) with false by lia.
+    rewrite Hu, El. reflexivity. }
+  pose proof (step_refines (IQalloc r) st pc) as Hr'. rewrite Hs in Hr'. specialize (Hr' ltac:(discriminate)).
+  destruct (execute_command (IQalloc r) st pc) as [[st' pc']|k|]; cbn [to_sres] in Hr'; congruence.
+Qed.
+
+Theorem qfree_bookkeeping : forall st pc r q p,
+  reg_ok r = true -> rd st r = Some q -> 0 <= q ->
+  nth_error (um st) (Z.to_nat q) = Some (Some p) -> set_mem p (used st) = true ->
+  execute_command (IQfree r) st pc =
+  Ok (with_um st (sset (Z.to_nat q) None (um st)) (set_remove p (used st)), pc + 1).
+Proof.
+  intros st pc r q p Hok Hr Hq Hu Hm.
+  assert (Hs : step (IQfree r) st pc =
+               Next (with_um st (sset (Z.to_nat q) None (um st)) (set_remove p (used st))) (pc + 1)).
+  { unfold step. cbn [instr_regs_ok]. rewrite Hok. cbn [negb]. rewrite Hr.
+    replace (q <? 0) with false by lia.
+    pose proof (nth_some_lt _ _ _ _ Hq Hu). replace (Zlen (um st) <=? q) with false by lia.
+    rewrite Hu, Hm. reflexivity. }
+  pose proof (step_refines (IQfree r) st pc) as Hr'. rewrite Hs in Hr'. specialize (Hr' ltac:(discriminate)).
+  destruct (execute_command (IQfree r) st pc) as [[st' pc']|k|]; cbn [to_sres] in Hr'; congruence.
 Qed.
